@@ -224,6 +224,16 @@ def gen_special(rng, quick):
                                  p0=dict(mtu=64, mps=23, credits=2), p1=dict(mtu=64, mps=23, credits=2), cidrel=rel, cids=_cids(rng, rel, nch),
                                  grant=[{"policy": "each"}] * 5, close=[{"ch": 0, "at": 0.5}],
                                  writes=idle + busy * (nch - 1) + [[[], []]] * (5 - nch)))
+    # write, await drain(), disconnect: credits run out in the middle of the last SDU and come back late; everything
+    # written before the drain must still arrive
+    for role in ("server", "client"):
+        for mode in ("le", "ecred"):
+            for credits, mps, size, gdelay in ((2, 50, 200, 2.0), (1, 23, 60, 0.5), (3, 64, 64 * 3 + 10, 1.0), (2, 50, 98, 2.0)):
+                out.append(_base(rng, family="drain-close", cls="drain-close", role=role, mode=mode, nch=1, hci_delay=0.01,
+                                 p1=dict(mtu=512, mps=mps, credits=credits), cidrel="diff", cids=[0x5A, 0x5B, 0x5C, 0x5D, 0x5E],
+                                 grant=[{"policy": "lazy", "delay": gdelay, "top": credits}] * 5,
+                                 drain_close=[{"ch": 0, "plan": [[0, size]]}], writes=[[[], []]] * 5))
+    # maximal MTU / MPS with writes of several MTUs
     big = [(1021, 3, 2, 200000)] if quick else [(1021, 3, 2, 200000), (27, 1, 7, 140000), (251, 255, 1, 70000)]
     for acl, c0, c1, size in big:
         for role in ("server", "client"):
